@@ -42,7 +42,7 @@ func onCycle(c *sched.Case) map[int]bool {
 	reach := make([][]bool, n)
 	for i := range reach {
 		reach[i] = make([]bool, n)
-		for _, d := range c.Targets[i].Deps {
+		for _, d := range c.EffDeps(i) {
 			reach[i][d] = true
 		}
 	}
@@ -130,7 +130,7 @@ func judge(c *sched.Case, ev []sched.Event, rc int, wall time.Duration, line str
 				return false
 			}
 			seen[i] = true
-			for _, d := range c.Targets[i].Deps {
+			for _, d := range c.EffDeps(i) {
 				if tainted(d, seen) {
 					return true
 				}
